@@ -1,7 +1,12 @@
 import Comdex.Lemmas.AmmMatchExact
+import Comdex.Lemmas.AmmMatchDust
 import Comdex.Lemmas.AmmFindPriceBook
 import Comdex.Lemmas.AmmPool
+import Comdex.Lemmas.AmmRanged
 import Comdex.Lemmas.AmmKeeper
+import Comdex.Lemmas.AmmPlace
+import Comdex.Lemmas.AmmOrders
+import Comdex.Model.AmmMultiView
 /-!
 # C05 — Batch matching conserves coins and never fills an order beyond its limits
 
@@ -20,12 +25,32 @@ Property clause → theorem
                                                                          → `fill_price_within_limit` (per fill, both directions),
                                                                            `fill_price_within_limit_engine` (every fill the engine makes)
 * "An order that is matched receives a strictly positive amount"         → `matched_receives_positive`
-* "quote paid by buyers ≥ quote received by sellers, dust < number of individual fills" (given base conservation)
-                                                                         → `quote_dust_bounds`, `quote_dust_bounds_rounds`
+* "quote paid by buyers ≥ quote received by sellers, dust < number of individual fills"
+      lists of fills at one price / several rounds, given base conservation → `quote_dust_bounds`, `quote_dust_bounds_rounds`
+      COMPOSED over every result of `Match` / `MatchAtSinglePrice` (nothing assumed but well-formed orders with distinct ids):
+      `0 ≤ dust`, `lo·L ≤ dust·10¹⁸ ≤ hi·L + #fills·(10¹⁸−1)` with `L ≥ 0` the base coin defect D2 dropped; `L = 0` and
+      `dust < #fills` wherever nothing is lost; the statement IS the monitor  → `quote_dust_bounds_match`, `quote_dust_bounds_single`
+      the clause as written is FALSE of the code (consequence of D2)     → `quote_dust_counterexample`
 * "matching exchanges exactly as much base coin as buyers receive and sellers pay"
       FALSE of the code (defect D2)                                      → `base_conserved_counterexample`
       true when nothing is lost in the re-runs of the pro-rata distribution → `base_conserved_partial`
       always true on the buy side                                        → `base_conserved_partial_buys`
+      exactly when                                                       → `base_conserved_iff_lossless` (+ `_single`), `distribution_exact_iff_lossless`
+* the price of a pair's first batch (`FindMatchPrice`)                   → `found_price_in_spread`, `found_price_iff_crossing`,
+                                                                           `limit_respected_first_batch`, `price_uniform_first_batch`
+* pool orders (the pool never buys above / sells below its curve price, never offers more than it holds)
+      basic pools                                                        → `pool_buy_amount_on_curve`, `pool_sell_amount_on_curve`,
+                                                                           `pool_*_orders_within_reserves_and_curve`, `pool_offers_within_reserves`
+      ranged pools (virtual reserves; `DeriveTranslation` modelled)      → `ranged_buy_amount_on_curve`, `ranged_sell_amount_on_curve`,
+                                                                           `ranged_buy_keeps_product`, `ranged_sell_keeps_product`,
+                                                                           `ranged_pool_*_orders_within_reserves_and_curve`,
+                                                                           `ranged_limit_orders_covered`, `ranged_pool_offers_within_reserves`
+* stored orders across batches (`NewUserOrder` → matcher → `ApplyMatchResult` → expiry)
+      limit orders                                                       → `order_within_amount` (+ `_after_batch`, `_step`, `_validated`),
+                                                                           `offered_amount_within_open`
+      the fitted price of a limit order (both directions)                → `place_ok_limit_order`, `placed_price_within_limit`
+      limit + market + MM orders (MM cancellation)                       → `order_within_amount_all_orders`,
+                                                                           `market_order_price_on_grid`, `mm_order_ticks_on_grid`
 -/
 namespace Comdex.C05
 open Comdex Comdex.Amm
@@ -416,6 +441,141 @@ example : lossless 3 [{ d2s1 with amount := 30000, opn := 30000, offer := 30000 
     31000 100000000000000 = true := by decide
 
 
+/-! ## the dust clause on every result of the engine (composed over all ticks, groups and rounds)
+
+`pre = (newBook os).orders`, `post = b'.orders`: the orders of the book before and after the call, in book order; `buyPaid`,
+`sellReceived`, `buyReceived`, `sellPaid`, `fillCount`, `baseLost = buyReceived − sellPaid` are the sums the driver computes on
+the REAL result (`Model/AmmMatch.lean`, `Model/AmmDust.lean`); `priceLo` / `priceHi` = lowest sell / highest buy limit price. -/
+
+theorem dust_lt_fills_of_le (q n : Int) (hn : 0 ≤ n) (h : q * Dec.P ≤ n * (Dec.P - 1)) : q < max n 1 := by
+  have hP := P_pos
+  have h3 : n * (Dec.P - 1) = n * Dec.P - n := by ring
+  by_cases hn1 : 1 ≤ n
+  · rw [Int.max_eq_left hn1]
+    by_contra hge
+    have h2 : n * Dec.P ≤ q * Dec.P := Int.mul_le_mul_of_nonneg_right (by omega) (by omega)
+    omega
+  · have h0 : n = 0 := by omega
+    subst h0
+    by_contra hge
+    have h2 : 1 * Dec.P ≤ q * Dec.P := Int.mul_le_mul_of_nonneg_right (by omega) (by omega)
+    omega
+
+/-- what `monQuoteDustAt … = true` says, spelled out -/
+theorem monQuoteDustAt_iff (pre post : List Order) (q lo hi : Int) :
+    monQuoteDustAt pre post q lo hi = true ↔
+      (q = buyPaid pre post - sellReceived pre post ∧ 0 ≤ q ∧ 0 ≤ baseLost pre post ∧ 0 ≤ fillCount pre post ∧
+       lo * baseLost pre post ≤ q * Dec.P ∧ q * Dec.P ≤ hi * baseLost pre post + fillCount pre post * (Dec.P - 1)) := by
+  unfold monQuoteDustAt
+  simp only [Bool.and_eq_true, beq_iff_eq, decide_eq_true_eq]
+  constructor
+  · rintro ⟨⟨⟨⟨⟨a, b⟩, c⟩, d⟩, e⟩, f⟩; exact ⟨a, b, c, d, e, f⟩
+  · rintro ⟨a, b, c, d, e, f⟩; exact ⟨⟨⟨⟨⟨a, b⟩, c⟩, d⟩, e⟩, f⟩
+
+/-- **quote_dust_bounds for every result of `OrderBook.Match`** (single-price step at the last price + the two-sided loop,
+ticks touched several times, any batch / priority mix).  The returned `quoteCoinDiff` is exactly what the buyers paid minus
+what the sellers received; it is `≥ 0`; the buyers never receive less base coin than the sellers pay (`0 ≤ L`); and
+`lo·L ≤ quoteCoinDiff·10¹⁸ ≤ hi·L + #fills·(10¹⁸ − 1)`: the dust is the value of the base coin the sell side failed to deliver
+(defect D2; priced between the lowest sell and the highest buy limit of the book) plus LESS THAN ONE quote unit per individual
+fill.  Where nothing is lost (`matchLossless`, decidable from the input; the buy side never loses) this is the property's clause
+literally: `0 ≤ dust < #fills` (`dust = 0` without fills).  Hypotheses: well-formed orders with distinct ids, positive last
+price — nothing else.  The first conjunct is literally what the driver evaluates on every REAL `Match` result (monitor
+`quote_dust`). -/
+theorem quote_dust_bounds_match (os : List Order) (hw : ∀ o ∈ os, Wf o) (hids : (os.map (·.id)).Nodup)
+    (lp : Int) (hlp : 0 < lp) (b' : Book) (mp q : Int) (h : matchBook (newBook os) lp = .ok b' mp q) :
+    monQuoteDustAt (newBook os).orders b'.orders q (priceLo (newBook os).orders) (priceHi (newBook os).orders) = true ∧
+    (matchLossless (newBook os) lp = true →
+      baseLost (newBook os).orders b'.orders = 0 ∧ monDustBelowFills (newBook os).orders b'.orders q = true) := by
+  have hb := newBook_ok os hw
+  have hn := newBook_ids os hids
+  have hm := matchBook_monDust (newBook os) lp hlp hb hn (newBook_nonempty os) b' mp q h
+  refine ⟨hm, ?_⟩
+  obtain ⟨_, m2, _, m4, _, m6⟩ := (monQuoteDustAt_iff _ _ _ _ _).mp hm
+  intro hl
+  have hex := (matchBook_exact (newBook os) lp hlp hb hn b' mp q h).2.mpr hl
+  rcases matchBook_ok (newBook os) lp hlp hb with h0 | ⟨b2, mp2, q2, h2, hr⟩
+  · rw [h0] at h; cases h
+  · rw [h2] at h; cases h
+    obtain ⟨_, _, s2, s3⟩ := book_sums (newBook os) b' hb hr
+    have hL : baseLost (newBook os).orders b'.orders = 0 := by
+      unfold baseLost; rw [s2, s3]; omega
+    refine ⟨hL, ?_⟩
+    rw [hL] at m6
+    simp only [Int.mul_zero, Int.zero_add] at m6
+    unfold monDustBelowFills
+    simp only [Bool.and_eq_true, decide_eq_true_eq]
+    exact ⟨m2, dust_lt_fills_of_le q _ m4 m6⟩
+
+/-- the same for `MatchAtSinglePrice` (a pair's first batch), exact in the price: `p·L ≤ quoteCoinDiff·10¹⁸ ≤ p·L + #fills·(10¹⁸−1)` -/
+theorem quote_dust_bounds_single (os : List Order) (hw : ∀ o ∈ os, Wf o) (hnd : os.Nodup) (p : Int) (hp : 0 < p)
+    (b' : Book) (q : Int) (h : matchAtSinglePrice (newBook os) p = .ok b' q) :
+    monQuoteDustAt (newBook os).orders b'.orders q p p = true ∧
+    (∀ x, findMatchableAmount (newBook os) p = some x → ticksLossless (newBook os).sells x p = true →
+      baseLost (newBook os).orders b'.orders = 0 ∧ monDustBelowFills (newBook os).orders b'.orders q = true) := by
+  have hb := newBook_ok os hw
+  have hn := newBook_nodup os hnd
+  have hm := matchAtSinglePrice_monDust (newBook os) p hp hb hn b' q h
+  refine ⟨hm, ?_⟩
+  obtain ⟨_, m2, _, m4, _, m6⟩ := (monQuoteDustAt_iff _ _ _ _ _).mp hm
+  intro x hx hl
+  obtain ⟨x', hx', e1, _, e3⟩ := matchAtSinglePrice_exact (newBook os) p hp hb hn b' q h
+  rw [hx] at hx'; cases hx'
+  have hex := e3.mpr hl
+  rcases matchAtSinglePrice_ok (newBook os) p hp hb with h0 | ⟨b2, q2, h2, hr⟩
+  · rw [h0] at h; cases h
+  · rw [h2] at h; cases h
+    obtain ⟨_, _, s2, s3⟩ := book_sums (newBook os) b' hb hr
+    have hL : baseLost (newBook os).orders b'.orders = 0 := by
+      unfold baseLost; rw [s2, s3]; omega
+    refine ⟨hL, ?_⟩
+    rw [hL] at m6
+    simp only [Int.mul_zero, Int.zero_add] at m6
+    unfold monDustBelowFills
+    simp only [Bool.and_eq_true, decide_eq_true_eq]
+    exact ⟨m2, dust_lt_fills_of_le q _ m4 m6⟩
+
+/-! ### the clause as written (`dust < #fills` unconditionally) is FALSE of the code: a consequence of defect D2
+
+sells 1000 @ 0.1 and 5 × 10 @ 0.1 (one batch), a buy of 1045 @ 0.2, last price 0.09.  The loop trades 1045 at 0.1: the buyer is
+filled for 1045 and pays ⌈104.5⌉ = 105.  The sell tick gets 1045 of its 1050 to distribute: pro-rata 995 + 5×9, the remainder 5
+tops the big seller up to 1000; the five shares of 9 are worth ⌊0.9⌋ = 0, so the function re-runs on the big seller alone with
+the same 1045, fills him for 1000 (he receives 100) and drops 45.  `quoteCoinDiff` = 5 with 2 individual fills. -/
+
+def dustS : Order := { id := 0, kind := 2, oid := 0, dir := .sell, price := 100000000000000000, amount := 1000,
+                       offer := 1000, opn := 1000, paid := 0, received := 0, batchId := 0 }
+def dustSm (i : Nat) : Order := { dustS with id := i, amount := 10, offer := 10, opn := 10 }
+def dustB : Order := { id := 6, kind := 2, oid := 0, dir := .buy, price := 200000000000000000, amount := 1045,
+                       offer := 209, opn := 1045, paid := 0, received := 0, batchId := 0 }
+def dustOrders : List Order := [dustS, dustSm 1, dustSm 2, dustSm 3, dustSm 4, dustSm 5, dustB]
+
+theorem dust_wf : ∀ o ∈ dustOrders, Wf o := by
+  intro o ho
+  simp only [dustOrders, List.mem_cons, List.not_mem_nil, or_false] at ho
+  rcases ho with rfl | rfl | rfl | rfl | rfl | rfl | rfl <;> exact ⟨by decide, by decide, by decide, by decide, by decide⟩
+
+/-- **`dust < #fills` is NOT true of the code as it is** (only of results that conserve base coin): on the witness `Match`
+returns `quoteCoinDiff = 5` after 2 individual fills; 45 base coin were dropped (D2), worth 4.5 quote units, which the buyer
+paid and nobody received.  The strongest true form (`quote_dust_bounds_match`) holds on the witness. -/
+theorem quote_dust_counterexample :
+    ∃ b', matchBook (newBook dustOrders) 90000000000000000 = .ok b' 100000000000000000 5 ∧
+      fillCount (newBook dustOrders).orders b'.orders = 2 ∧ baseLost (newBook dustOrders).orders b'.orders = 45 ∧
+      monDustBelowFills (newBook dustOrders).orders b'.orders 5 = false ∧
+      monQuoteDustAt (newBook dustOrders).orders b'.orders 5 (priceLo (newBook dustOrders).orders)
+        (priceHi (newBook dustOrders).orders) = true ∧
+      matchLossless (newBook dustOrders) 90000000000000000 = false := by
+  refine ⟨⟨[⟨200000000000000000, [{ dustB with opn := 0, paid := 105, received := 1045, fills := 1 }]⟩],
+           [⟨100000000000000000, [{ dustS with opn := 0, paid := 1000, received := 100, fills := 1 },
+              dustSm 1, dustSm 2, dustSm 3, dustSm 4, dustSm 5]⟩]⟩, ?_, ?_, ?_, ?_, ?_, ?_⟩ <;> decide
+
+/-- non-vacuity of `quote_dust_bounds_match`: its hypotheses hold on the witness (and on `exOrders`, where nothing is lost) -/
+example : (∀ o ∈ dustOrders, Wf o) ∧ (dustOrders.map (·.id)).Nodup ∧
+    (exOrders.map (·.id)).Nodup ∧ matchLossless (newBook exOrders) 1000000000000000000 = true :=
+  ⟨dust_wf, by decide, by decide, by decide⟩
+
+/-- non-vacuity of `quote_dust_bounds_single`: the D2 single-price book (three user orders of one batch) really matches at 0.0001 -/
+example : d2Orders.Nodup ∧ (match matchAtSinglePrice (newBook d2Orders) 100000000000000 with | .ok _ _ => true | _ => false) = true :=
+  ⟨by decide, by decide⟩
+
 /-! ## FindMatchPrice (the price of a pair's first batch) — modelled, no longer an input
 
 `T prec k` is the tick of index `k` at precision `prec` (`TickFromIndex`), `hiIdx prec` the index of `HighestTick`. -/
@@ -591,6 +751,184 @@ example : (poolBuyOrders ⟨1000000, 1000000⟩ 900000000000000000 1100000000000
   refine ⟨by decide, by decide, by decide⟩
 
 
+/-! ## the pool side of a batch (ranged pools) — modelled, no longer an input
+
+`Model/AmmRanged.lean`: `DeriveTranslation`, the `RangedPool` curve functions and `PoolBuyOrders` / `PoolSellOrders` over a ranged
+pool, bit for bit.  `X = xComp = rx + transX`, `Y = yComp = ry + transY` are the VIRTUAL reserves (Dec raws, ×10^18 = `Dec.P`); the
+pool's curve is `X·Y = const`; `rx`, `ry` are the REAL reserves.  The translation comes out of approximate square roots; every
+statement below holds for ANY translation with non-negative virtual reserves (what the monitor checks on every real pool). -/
+
+/-- **`RangedPool.BuyAmountOver`**: the amount `a` a ranged pool offers to buy at price `t` costs at most its REAL quote reserve,
+and `t·(Y + a) ≤ X` up to half a unit of the 18th decimal (`Dec.Mul` rounds): the pool pays at most `X/(Y + a)` — on its virtual
+constant-product curve -/
+theorem ranged_buy_amount_on_curve (pl : RPool) (t a : Int) (hrx : 0 ≤ pl.rx) (hY : 0 ≤ pl.yComp) (ht0 : 0 < t)
+    (h : pl.buyAmountOver t = some a) (ha : 0 < a) :
+    quoteCeil t a ≤ pl.rx ∧ t * (pl.yComp + a * Dec.P) ≤ pl.xComp * Dec.P + Dec.half :=
+  (rBuyAmountOver_spec pl t a hrx hY ht0 h).2 ha
+
+/-- **`RangedPool.SellAmountUnder`**: the amount `a` offered for sale at `t` is covered by the REAL base reserve, and
+`X/t ≤ Y − a` up to `t·10⁻³⁶` (`QuoRoundUp` rounds twice): the pool receives at least `X/(Y − a)` per unit; every price -/
+theorem ranged_sell_amount_on_curve (pl : RPool) (t a : Int) (hX : 0 ≤ pl.xComp) (hY : 0 ≤ pl.yComp)
+    (h : pl.sellAmountUnder t = some a) (ha : 0 < a) :
+    0 < t ∧ a ≤ pl.ry ∧ 0 ≤ pl.yComp - a * Dec.P ∧
+    pl.xComp * Dec.PP ≤ t * (pl.yComp - a * Dec.P) * Dec.P + t :=
+  (rSellAmountUnder_spec pl t a hX hY h).2 ha
+
+/-- **no value extraction, buy side**: an order on the curve (`t·(Y + a) ≤ X + ½·10⁻¹⁸`), fully filled — the pool pays `c = ⌈t·a⌉`
+and receives `a` — leaves the virtual product at least `X·Y − (Y + a)·1 quote unit − a·½·10⁻¹⁸`: nothing but the rounding of the
+payment to a whole quote unit can lower it -/
+theorem ranged_buy_keeps_product (X Y t a : Int) (hY : 0 ≤ Y) (ha : 0 ≤ a) (ht : 0 ≤ t)
+    (hc : t * (Y + a * Dec.P) ≤ X * Dec.P + Dec.half) :
+    X * Y - Dec.P * (Y + a * Dec.P) - a * Dec.half ≤ (X - quoteCeil t a * Dec.P) * (Y + a * Dec.P) := by
+  have hP := P_pos
+  have hq : 0 ≤ Y + a * Dec.P := by have := Int.mul_nonneg ha (Int.le_of_lt hP); omega
+  have h0 := quoteCeil_mul_le t a (Int.mul_nonneg ht ha)
+  have h1 : quoteCeil t a * Dec.P * (Y + a * Dec.P) ≤ (t * a + (Dec.P - 1)) * (Y + a * Dec.P) :=
+    Int.mul_le_mul_of_nonneg_right h0 hq
+  have h2 : a * (t * (Y + a * Dec.P)) ≤ a * (X * Dec.P + Dec.half) := Int.mul_le_mul_of_nonneg_left hc ha
+  nlinarith [h1, h2]
+
+/-- **no value extraction, sell side**: the pool gives `a` and receives `r = ⌊t·a⌋`; with `Y' = Y − a`:
+`X'·Y' ≥ X·Y − Y'·1 quote unit − a·t·10⁻³⁶` -/
+theorem ranged_sell_keeps_product (X Y t a : Int) (ha : 0 ≤ a) (ht : 0 ≤ t) (hY' : 0 ≤ Y - a * Dec.P)
+    (hc : X * Dec.PP ≤ t * (Y - a * Dec.P) * Dec.P + t) :
+    Dec.P * (X * Y) - a * t - Dec.PP * (Y - a * Dec.P) ≤ Dec.P * ((X + quoteFloor t a * Dec.P) * (Y - a * Dec.P)) := by
+  have hP := P_pos
+  have h0 := le_quoteFloor_mul t a (Int.mul_nonneg ht ha)
+  have h1 : (t * a - (Dec.P - 1)) * (Y - a * Dec.P) ≤ quoteFloor t a * Dec.P * (Y - a * Dec.P) :=
+    Int.mul_le_mul_of_nonneg_right (by omega) hY'
+  have h2 : a * (X * Dec.PP) ≤ a * (t * (Y - a * Dec.P) * Dec.P + t) := Int.mul_le_mul_of_nonneg_left hc ha
+  have hPP : Dec.PP = Dec.P * Dec.P := rfl
+  rw [hPP] at h2 ⊢
+  nlinarith [h1, h2, Int.mul_nonneg (Int.le_of_lt hP) hY']
+
+/-- **`PoolBuyOrders` over a ranged pool** (positive lower price limit): every order the tick loop places is — replayed on the
+running reserves, `monRPoolBuys` — covered by the REAL quote reserve and not above the virtual curve, given that the state the loop
+starts from (the pool itself, or the pool after the one `BuyAmountTo` order at the upper limit, translation derived again) has
+non-negative real quote and virtual base reserve -/
+theorem ranged_pool_buy_orders_within_reserves_and_curve (pl : RPool) (lowest highest : Int) (prec : Nat) (hlow : 0 < lowest) :
+    RBuysOk pl highest (rPoolBuyOrders pl lowest highest prec) :=
+  rPoolBuyOrders_ok pl lowest highest prec hlow
+
+/-- **`PoolSellOrders` over a ranged pool** likewise (`monRPoolSells`; non-negative virtual reserves at the start of the loop) -/
+theorem ranged_pool_sell_orders_within_reserves_and_curve (pl : RPool) (lowest highest : Int) (prec : Nat) :
+    RSellsOk pl lowest (rPoolSellOrders pl lowest highest prec) :=
+  rPoolSellOrders_ok pl lowest highest prec
+
+/-- the one order at the price limit (`BuyAmountTo` / `SellAmountTo`, approximate square roots — not proved to be on the curve)
+is at least covered by the REAL reserves -/
+theorem ranged_limit_orders_covered (pl : RPool) (t a : Int) (hrx : 0 ≤ pl.rx) (hry : 0 ≤ pl.ry) (ht0 : 0 < t) :
+    (pl.buyAmountTo t = some a → 0 ≤ a ∧ (0 < a → quoteCeil t a ≤ pl.rx)) ∧
+    (pl.sellAmountTo t = some a → 0 ≤ a ∧ a ≤ pl.ry) :=
+  ⟨fun h => rBuyAmountTo_covered pl t a hrx ht0 h, fun h => rSellAmountTo_covered pl t a hry h⟩
+
+/-- the totals: quote coin offered by the tick-loop buy orders ≤ `rx`, base coin offered by the sell orders ≤ `ry` -/
+theorem ranged_pool_offers_within_reserves (pl : RPool) (bl sl : List (Int × Int)) (hb : monRPoolBuys pl bl = true)
+    (hs : monRPoolSells pl sl = true) :
+    (bl ≠ [] → sumInt (bl.map fun pa => quoteCeil pa.1 pa.2) ≤ pl.rx) ∧ (sl ≠ [] → sumInt (sl.map fun pa => pa.2) ≤ pl.ry) :=
+  ⟨fun hne => (monRPoolBuys_total pl bl hb).resolve_right hne, fun hne => (monRPoolSells_total pl sl hs).resolve_right hne⟩
+
+/-- non-vacuity: the ranged pool 10^6 : 10^6 on [0.9, 1.1] (`NewRangedPool` derives the translation ≈ 1.94·10^7 : 1.95·10^7, price
+0.9952…) places 47 buy and 15 sell orders inside the limits 0.9 … 1.1 at precision 2, its virtual reserves are non-negative and
+the orders pass the replayed conditions -/
+def exRanged : RPool := ⟨1000000, 1000000, 900000000000000000, 1100000000000000000,
+  19388616655548310034032496, 19486292924390644719857716⟩
+
+example : RPool.new 1000000 1000000 900000000000000000 1100000000000000000 = some exRanged := by
+  set_option maxRecDepth 100000 in decide
+
+example : exRanged.price = some 995232115971257888 ∧ 0 ≤ exRanged.xComp ∧ 0 ≤ exRanged.yComp ∧
+    (rPoolBuyOrders exRanged 900000000000000000 1100000000000000000 2).length = 47 ∧
+    (rPoolSellOrders exRanged 900000000000000000 1100000000000000000 2).length = 15 ∧
+    monRPoolBuys exRanged (rPoolBuyOrders exRanged 900000000000000000 1100000000000000000 2) = true ∧
+    monRPoolSells exRanged (rPoolSellOrders exRanged 900000000000000000 1100000000000000000 2) = true := by
+  set_option maxRecDepth 100000 in
+  refine ⟨by decide, by decide, by decide, by decide, by decide, by decide, by decide⟩
+
+example : exRanged.buyAmountOver 995000000000000000 = some 4779 ∧ exRanged.sellAmountUnder 996000000000000000 ≠ some 0 := by
+  set_option maxRecDepth 100000 in
+  refine ⟨by decide, by decide⟩
+
+
+/-! ## the keeper's first batch of a pair WITH pools — modelled (`Model/AmmMultiView.lean`)
+
+`FindMatchPrice` walks `MultipleOrderViews{book view, pool curves…}`; each pool then places one buy and one sell order at the found
+price — `BuyAmountOver(p)` / `SellAmountUnder(p)`, the amounts of `pool_buy_amount_on_curve` / `ranged_buy_amount_on_curve` … — and
+the book is matched at that single price. -/
+
+theorem poolOrdersAt_wf (pools : List (Nat × PoolV)) (p : Int) (hp : 0 < p) (firstId : Nat) :
+    ∀ o ∈ poolOrdersAt pools p firstId, Wf o ∧ o.price = p ∧ o.kind = 1 := by
+  induction pools generalizing firstId with
+  | nil => intro o ho; simp [poolOrdersAt] at ho
+  | cons x rest ih =>
+    obtain ⟨pid, pl⟩ := x
+    intro o ho
+    unfold poolOrdersAt at ho
+    simp only at ho
+    rcases List.mem_append.mp ho with h1 | h1
+    · rcases List.mem_append.mp h1 with h2 | h2
+      · split at h2
+        · rename_i hb
+          simp only [List.mem_singleton] at h2
+          subst h2
+          refine ⟨⟨hp, Int.le_refl _, by simp only; omega, Int.le_refl _, ?_⟩, rfl, rfl⟩
+          simp only [reduceCtorEq, if_false, offerCoinAmount]
+          have := quoteCeil_nonneg p ((pl.buyAmountOver p).getD 0) (by omega) (by omega)
+          omega
+        · simp at h2
+      · split at h2
+        · rename_i hs
+          simp only [List.mem_singleton] at h2
+          subst h2
+          refine ⟨⟨hp, Int.le_refl _, by simp only; omega, Int.le_refl _, ?_⟩, rfl, rfl⟩
+          simp [offerCoinAmount]
+        · simp at h2
+    · exact ih _ o h1
+
+/-- **limits respected in a first batch with pools**: at any positive match price (in particular the one `FindMatchPrice` returns
+for the multiple view) the book of the user orders plus the pools' orders at that price is matched without a panic, and every
+order of the result — user or pool — is an input order after allowed fills (`Delta`: within offer and amount, at a price within
+its limit, a matched order receives something) -/
+theorem limit_respected_first_batch_pools (os : List Order) (hw : ∀ o ∈ os, Wf o) (pools : List (Nat × PoolV))
+    (prec firstId : Nat) (p : Int) (hp : 0 < p)
+    (hf : (matchFirstBatchPools os pools prec firstId).1 = some p) :
+    (matchFirstBatchPools os pools prec firstId).2.1 = poolOrdersAt pools p firstId ∧
+    ((matchFirstBatchPools os pools prec firstId).2.2 = .noMatch ∨
+     ∃ b' q, (matchFirstBatchPools os pools prec firstId).2.2 = .ok b' q ∧
+       ∀ o' ∈ b'.orders, ∃ o ∈ os ++ poolOrdersAt pools p firstId, Delta o o') := by
+  unfold matchFirstBatchPools at hf ⊢
+  simp only at hf ⊢
+  cases hm : findMatchPriceM ⟨makeView (newBook os), pools.map (·.2)⟩ prec with
+  | none => rw [hm] at hf; cases hf
+  | some p' =>
+    rw [hm] at hf
+    simp only at hf ⊢
+    cases hf
+    refine ⟨rfl, ?_⟩
+    have hfold : (poolOrdersAt pools p firstId).foldl addOrder (newBook os) = newBook (os ++ poolOrdersAt pools p firstId) := by
+      unfold newBook; rw [List.foldl_append]
+    rw [hfold]
+    apply single_delta _ _ p hp
+    intro o ho
+    rcases List.mem_append.mp ho with h | h
+    · exact hw o h
+    · exact (poolOrdersAt_wf pools p hp firstId o h).1
+
+/-- non-vacuity: a buy of 1000 @ 1.05, a sell of 500 @ 0.95 and the basic pool 10⁶ : 10⁶ (price 1.0) at precision 2: the multiple
+view finds the price 1.01, the pool places a sell order of 9900 there, the buyer gets 500 from the seller and 500 from the pool -/
+example :
+    let b : Order := { id := 0, kind := 0, oid := 1, dir := .buy, price := 1050000000000000000, amount := 1000, offer := 1050,
+                       opn := 1000, paid := 0, received := 0, batchId := 1 }
+    let s : Order := { id := 1, kind := 0, oid := 2, dir := .sell, price := 950000000000000000, amount := 500, offer := 500,
+                       opn := 500, paid := 0, received := 0, batchId := 1 }
+    let r := matchFirstBatchPools [b, s] [(1, PoolV.basic ⟨1000000, 1000000⟩)] 2 2
+    r.1 = some 1010000000000000000 ∧ (r.2.1.map fun (o : Order) => (o.id, o.amount)) = [(2, 9900)] ∧
+    (match r.2.2 with
+     | .ok b' q => some (q, b'.orders.map fun (o : Order) => (o.id, o.opn, o.paid, o.received))
+     | _ => none) = some (0, [(0, 0, 1010, 1000), (1, 0, 500, 505), (2, 9400, 500, 505)]) := by
+  set_option maxRecDepth 100000 in
+  refine ⟨by decide, by decide, by decide⟩
+
 /-! ## the exact characterisation of defect D2 -/
 
 /-- **Base coin over a whole `Match`, exactly**: the sellers never pay more base coin than the buyers receive, and they pay
@@ -670,6 +1008,110 @@ theorem order_within_amount_after_batch (prec : Nat) (hprec : 10 ^ prec < 2 ^ 30
 theorem order_within_amount_step (prec : Nat) (hprec : 10 ^ prec < 2 ^ 300 - 1) (s : KState) (now : Int) (h : KInv prec s) :
     KInv prec (batchStep s prec now) :=
   batchStep_inv prec hprec s now h
+
+/-- **`PlaceOk` is what `ValidateMsgLimitOrder` establishes, for BOTH directions**: a message price between `LowestTick` and
+`HighestTick` (the check of swap.go:59-68 for a pair without last price), fitted to the grid — `PriceToDownTick` for a buy,
+`PriceToUpTick` for a sell — is a positive tick whose index does not exceed the highest tick's -/
+theorem place_ok_limit_order (prec : Nat) (hprec : 10 ^ prec < 2 ^ 300 - 1) (d : Dir) (x : Nat) (amount : Int) (ha : 0 ≤ amount)
+    (h1 : lowestTick prec ≤ (x : Int)) (h2 : (x : Int) ≤ highestTick prec) : PlaceOk prec d (x : Int) amount := by
+  have h1' : 10 ^ prec ≤ x := by unfold lowestTick at h1; exact_mod_cast h1
+  have h2' : x ≤ T prec (hiIdx prec) := by rw [highestTick_eq prec hprec] at h2; exact_mod_cast h2
+  cases d with
+  | buy =>
+    apply placeOk_buy prec x amount ha h1'
+    have := (grid_cell prec (2 ^ 300 - 1) (by omega)).2.1
+    unfold hiIdx at h2'
+    omega
+  | sell => exact placeOk_sell prec x amount ha h1' h2'
+
+/-- **the price an order is stored with is never worse for the orderer than the price of the message**: a buy is fitted down, a sell
+up (monitor `placed_price_within_limit` on every real stored limit order) -/
+theorem placed_price_within_limit (prec x : Nat) (hx : lowestTick prec ≤ (x : Int)) :
+    priceToDownTick (x : Int) prec ≤ (x : Int) ∧ (x : Int) ≤ priceToUpTick (x : Int) prec :=
+  fitted_price_within_limit prec x (by unfold lowestTick at hx; exact_mod_cast hx)
+
+/-- `order_within_amount` with the assumption on the placed orders discharged: every limit order whose message price lies between
+the lowest and the highest tick and whose amount is not negative -/
+theorem order_within_amount_validated (prec : Nat) (hprec : 10 ^ prec < 2 ^ 300 - 1) (bs : List Batch)
+    (hok : ∀ b ∈ bs, ∀ x ∈ b.placed, 0 ≤ x.2.2.1 ∧ ∃ n : Nat, x.2.1 = (n : Int) ∧ lowestTick prec ≤ (n : Int) ∧ (n : Int) ≤ highestTick prec) :
+    ∀ so ∈ (runBatches KState.init prec bs).orders,
+      0 ≤ so.openAmt ∧ so.openAmt ≤ so.amount ∧ 0 ≤ so.remaining ∧ so.remaining ≤ so.offer ∧
+      monOrderWithinAmount so = true ∧ monOrderLimit so = true := by
+  intro so hso
+  have h := order_within_amount prec hprec bs (by
+    intro b hb x hx
+    obtain ⟨ha, n, hn, l1, l2⟩ := hok b hb x hx
+    rw [hn]
+    exact place_ok_limit_order prec hprec x.1 n x.2.2.1 ha l1 l2) so hso
+  exact ⟨h.1, h.2.1, h.2.2.1, h.2.2.2.1, h.2.2.2.2.2.2.1, h.2.2.2.2.2.2.2⟩
+
+/-- non-vacuity: at precision 4 the message price 1.00005 of a sell order is fitted up to the tick 1.0001 (index 90001 + …) -/
+example : priceToUpTick 1000050000000000000 4 = 1000100000000000000 ∧ priceToDownTick 1000050000000000000 4 = 1000000000000000000 ∧
+    lowestTick 4 ≤ 1000050000000000000 ∧ (1000050000000000000 : Int) ≤ highestTick 4 := by
+  set_option maxRecDepth 100000 in
+  refine ⟨by decide, by decide, by decide, by decide⟩
+
+/-! ## market orders and MM orders at the keeper level — modelled (`Model/AmmOrders.lean`), no longer out of scope
+
+A market order is stored with the limit price `last price ± MaxPriceLimitRatio` fitted to the grid and the offer coin
+`OfferCoinAmount(dir, price, amount)`; an MM order is a ladder of tick orders (`MMOrderTicks`), the orderer's previous ladder is
+canceled first.  After placement they are ordinary stored orders. -/
+
+/-- **the limit price of a market order is a positive tick of the grid** whenever the last price moved by the ratio lies between
+the lowest and the highest tick (`x` = that product, a natural number) -/
+theorem market_order_price_on_grid (prec : Nat) (hprec : 10 ^ prec < 2 ^ 300 - 1) (d : Dir) (lp ratio : Int) (x : Nat)
+    (hx : (match d with | .buy => Dec.mul lp (Dec.one + ratio) | .sell => Dec.mul lp (Dec.one - ratio)) = (x : Int))
+    (h1 : 10 ^ prec ≤ x) (h2 : x ≤ T prec (hiIdx prec)) : GridPrice prec (marketPrice prec d lp ratio) :=
+  marketPrice_grid prec hprec d lp ratio x hx h1 h2
+
+/-- **the tick ladder of an MM order** (`MMOrderTicks`, at least two ticks allowed): when both ends of the price range are ticks
+between the lowest and the highest tick — what `MMOrder` checks — every tick order's price is a positive tick of the grid and every
+amount is `≥ 0` -/
+theorem mm_order_ticks_on_grid (prec : Nat) (hprec : 10 ^ prec < 2 ^ 300 - 1) (d : Dir) (a b : Nat) (amt : Int) (n : Nat)
+    (hn : 2 ≤ n) (ha : 10 ^ prec ≤ a) (hab : a ≤ b) (hb : b ≤ T prec (hiIdx prec))
+    (hga : GridPrice prec (a : Int)) (hgb : GridPrice prec (b : Int)) (hamt : 0 ≤ amt) :
+    ∀ pa ∈ mmOrderTicks d (a : Int) (b : Int) amt n prec, GridPrice prec pa.1 ∧ 0 ≤ pa.2 :=
+  mmOrderTicks_ok prec hprec d a b amt n hn ha hab hb hga hgb hamt
+
+/-- **`order_within_amount` and `order_limit_respected` for limit, market and MM orders together**: for every run of any number
+of batches from the empty pair in which every accepted message is acceptable in the state it is delivered in (`RunOk`: a limit
+order's fitted price, a market order's computed price and an MM order's tick prices are grid prices, amounts `≥ 0` — discharged by
+`place_ok_limit_order`, `market_order_price_on_grid`, `mm_order_ticks_on_grid`), every stored order — whatever its kind, also after
+an MM cancellation — has `0 ≤ OpenAmount ≤ Amount`, `0 ≤ RemainingOfferCoin ≤ OfferCoin`, and passes `monOrderWithinAmount` and
+`monOrderLimit` (a buyer paid at most its price × filled + <1 per fill; a seller received at least price × filled − <1 per fill,
+where for a market order "its price" is the computed limit `last ± ratio`) -/
+theorem order_within_amount_all_orders (prec : Nat) (hprec : 10 ^ prec < 2 ^ 300 - 1) (ratio : Int) (maxNumTicks : Nat)
+    (bs : List MBatch) (hok : RunOk prec ratio maxNumTicks MState.init bs) :
+    ∀ so ∈ (runMBatches MState.init prec ratio maxNumTicks bs).k.orders,
+      0 ≤ so.openAmt ∧ so.openAmt ≤ so.amount ∧ 0 ≤ so.remaining ∧ so.remaining ≤ so.offer ∧
+      monOrderWithinAmount so = true ∧ monOrderLimit so = true := by
+  intro so hso
+  have h := (runMBatches_inv prec hprec ratio maxNumTicks MState.init bs (KInv.init prec) hok).inv so hso
+  exact ⟨h.open_nonneg, h.open_le, h.rem_nonneg, h.rem_le, h.monitors.1, h.monitors.2⟩
+
+/-- non-vacuity: last price 1.0, ratio 10 %, precision 4: a market buy is stored with the limit 1.1 (= tick 1261000), a market sell
+with 0.9; an MM buy ladder 0.97 … 0.9999 of 100000 in 10 ticks puts 10000 on each tick; the run below (limit orders making the last
+price 1.0, then a market buy of 1000 against a limit sell of 600 @ 1.0) fills the market order for 600 at 1.0, not at its limit -/
+example :
+    let P : Int := 1000000000000000000
+    marketPrice 4 .buy P (P / 10) = 11 * P / 10 ∧ marketPrice 4 .sell P (P / 10) = 9 * P / 10 ∧
+    (mmOrderTicks .buy (97 * P / 100) (9999 * P / 10000) 100000 10 4).length = 10 ∧
+    (mmOrderTicks .buy (97 * P / 100) (9999 * P / 10000) 100000 10 4).getLast? = some (9999 * P / 10000, 10000) ∧
+    ((runMBatches MState.init 4 (P / 10) 10
+        [⟨[.limit .buy P 100 0, .limit .sell P 100 0], 0⟩,
+         ⟨[.market .buy 1000 3600, .limit .sell P 600 5], 5⟩]).k.orders.map
+      fun (o : SOrder) => (o.id, o.price, o.openAmt, o.remaining, o.received, o.status.code)) =
+      [(3, 11 * P / 10, 400, 500, 600, 3)] := by
+  set_option maxRecDepth 100000 in
+  refine ⟨by decide, by decide, by decide, by decide, by decide⟩
+
+/-- …and its hypotheses are satisfiable: the market order of that run is acceptable (`MsgOk`) at the last price 1.0 -/
+example : MsgOk 4 100000000000000000 10 (some 1000000000000000000) (.market .buy 1000 3600) := by
+  refine ⟨by decide, ?_⟩
+  intro lp hlp
+  cases hlp
+  exact market_order_price_on_grid 4 (by decide) .buy _ _ 1100000000000000000 (by decide) (by decide)
+    (by set_option maxRecDepth 100000 in decide)
 
 /-- non-vacuity, and the scenario of the seeded edit s64 on the model: last price 1.0; a buy of 1000 @ 1.1 (offer 1100) is filled
 600 at 1.0 (400 open, 500 quote left — which would buy 454 at 1.1); against a later sell of 1000 @ 1.0 it takes exactly its 400
